@@ -141,3 +141,9 @@ def run(eng, tier):
         'not_decided': ['the consumer-side shadow book follows by induction from per-step truthfulness; not re-derived'],
         'assumptions': [],
     }
+
+import probes as _pb
+PROBES = [
+    _pb.drop_attr('execute', 'RejectBid', 'order_open'),
+    _pb.drop_message('execute', 'ExpireAsk', 0),
+]
